@@ -267,7 +267,17 @@ fn survivor_probe(s: &Survivor, scenario: &str) -> Result<(), Failure> {
 
 /// after everything is gone the name must be creatable with different settings
 fn recreate_with_other_settings(d: &Domain, scenario: &str) -> Result<(), Failure> {
-    let node = NodeBuilder::new().config(&d.config).create::<S>().map_err(|e| Failure::new("after.node_create", format!("cannot create a node after the cleanup: {e:?}")))?;
+    let node = NodeBuilder::new().config(&d.config).create::<S>().map_err(|e| {
+        use std::os::unix::fs::PermissionsExt;
+        let broken_global = vcore::util::shm_entries_containing(&d.prefix).iter().filter(|n| n.ends_with("global_mgmt")).any(|n| {
+            std::fs::metadata(format!("/dev/shm/{n}")).map(|m| m.len() == 0 || m.permissions().mode() & 0o400 == 0).unwrap_or(false)
+        });
+        if broken_global {
+            Failure::new("domain.global_mgmt_segment_left_half_created_by_dead_creator", format!("no node can be created in the domain any more ({e:?}): the domain-wide management segment was left half-created (zero-sized or still write-only) by a process that died while creating it, and nobody repairs or removes it"))
+        } else {
+            Failure::new("after.node_create", format!("cannot create a node after the cleanup: {e:?}"))
+        }
+    })?;
     let r = match scenario {
         s if s.contains("pub") || s.contains("sub") || s == "node_only" => node.service_builder(&sname()).publish_subscribe::<u64>().max_publishers(5).create().map(|_| ()).map_err(|e| format!("{e:?}")),
         s if s.contains("event") || s.contains("notifier") || s.contains("listener") => node.service_builder(&sname()).event().max_listeners(7).create().map(|_| ()).map_err(|e| format!("{e:?}")),
@@ -282,14 +292,30 @@ fn only_unlisted_node_remnants(left: &[String]) -> bool {
     !left.is_empty() && left.iter().all(|l| l.starts_with("nodes/") && (l.ends_with("node.details") || l.ends_with(".node_monitor_context") || l.matches('/').count() == 1))
 }
 
+thread_local! {
+    static REFS: std::cell::RefCell<BTreeMap<String, Vec<vtrace::Step>>> = const { std::cell::RefCell::new(BTreeMap::new()) };
+}
+
+/// phase of the reference run in which system-call crash point `n` of `scenario` lies
+fn phase_of(scenario: &str, n: u64) -> String {
+    REFS.with(|r| {
+        let mut r = r.borrow_mut();
+        if !r.contains_key(scenario) {
+            r.insert(scenario.to_string(), reference_steps(scenario).unwrap_or_default());
+        }
+        r[scenario].get(n as usize).map(|s| s.phase.clone()).unwrap_or_else(|| "end".into())
+    })
+}
+
 fn run_case(c: &CrashCase, obs: &mut Obs) -> Result<(), Failure> {
+    let phase = if c.kind == "syscall" { phase_of(&c.scenario, c.n) } else { String::new() };
     let d = Domain::new();
-    let r = run_case_in(&d, c, obs);
+    let r = run_case_in(&d, c, &phase, obs);
     d.cleanup();
     r
 }
 
-fn run_case_in(d: &Domain, c: &CrashCase, obs: &mut Obs) -> Result<(), Failure> {
+fn run_case_in(d: &Domain, c: &CrashCase, phase: &str, obs: &mut Obs) -> Result<(), Failure> {
     let survivor = setup_survivor(d, &c.scenario)?;
     let args = child_args(d, &c.scenario);
     // ---- crash the victim ----
@@ -334,13 +360,38 @@ fn run_case_in(d: &Domain, c: &CrashCase, obs: &mut Obs) -> Result<(), Failure> 
         let r = if c.cleaner_n.is_some() { v.blocking_remove_stale_resources(core::time::Duration::from_secs(2)) } else { v.try_remove_stale_resources() };
         match r {
             Ok(()) | Err(NodeCleanupFailure::ResourcesAlreadyCleanedUp) => cleaned += 1,
-            Err(e) => fail!("survivor.cleanup_failed", "removing the stale resources of dead node {id} failed: {e:?}"),
+            Err(e) => {
+                let dir = d.root.join("nodes").join(format!("{id}"));
+                let files: Vec<String> = std::fs::read_dir(&dir)
+                    .map(|rd| {
+                        rd.flatten()
+                            .map(|e| {
+                                use std::os::unix::fs::PermissionsExt;
+                                let mode = e.metadata().map(|m| m.permissions().mode() & 0o777).unwrap_or(0);
+                                format!("{} (mode {:o}, {} bytes)", e.file_name().to_string_lossy(), mode, e.metadata().map(|m| m.len()).unwrap_or(0))
+                            })
+                            .collect()
+                    })
+                    .unwrap_or_default();
+                let locked_tag = files.iter().any(|f| (f.contains(".service_tag") || f.contains(".port_tag")) && f.contains("mode 600"));
+                if locked_tag {
+                    fail!("cleanup.blocked_by_half_created_tag_of_dead_node", "removing the stale resources of dead node {id} failed: {e:?}; its directory still holds a tag file in creation (locked) state that the cleanup does not see: {files:?}");
+                }
+                fail!("survivor.cleanup_failed", "removing the stale resources of dead node {id} failed: {e:?}; node directory: {files:?}")
+            }
         }
     }
     if cleaned > 0 {
         obs.class("dead_node_cleaned");
     }
     let (l2, _) = list_nodes(d)?;
+    if !l2.dead.is_empty() && l2.other.is_empty() && l2.dead.iter().all(|id| !d.root.join("nodes").join(format!("{id}")).join(format!("{}node.details", d.prefix)).exists()) {
+        fail!(
+            "cleanup.uses_global_config_when_node_details_are_gone",
+            "the victim died during its own node destruction (phase {phase}) after its node.details were removed: the dead-node cleanup then falls back to Config::global_config() instead of the domain's config, finds nothing ('already cleaned up') and the node stays listed as dead for ever: {:?}",
+            l2.dead
+        );
+    }
     ensure!(l2.dead.is_empty() && l2.other.is_empty(), "survivor.dead_node_remains", "after the cleanup Node::list still reports dead {:?} other {:?}", l2.dead, l2.other);
     for a in &l2.alive {
         ensure!(Some(*a) == own, "survivor.dead_node_reported_alive", "node {a} reported alive after cleanup");
@@ -352,6 +403,9 @@ fn run_case_in(d: &Domain, c: &CrashCase, obs: &mut Obs) -> Result<(), Failure> 
     if !left.is_empty() {
         if only_unlisted_node_remnants(&left) {
             fail!("leftover.node_died_before_monitor_token", "node directory/details/monitor context of a node that died before its monitoring token existed stay behind: {left:?}");
+        }
+        if phase == "service_drop" && left.iter().any(|l| l.ends_with(".service")) && left.iter().all(|l| l.starts_with("services/") || l.starts_with("/dev/shm/")) {
+            fail!("leftover.service_orphaned_by_crash_after_service_tag_removal", "the victim died while dropping the last handle of a service: it removes its service tag first and the service's resources afterwards, so the dead-node cleanup (which walks the tags) no longer knows about the service and its resources stay for ever: {left:?}");
         }
         if left.len() == 1 && left[0].starts_with("services/") && left[0].ends_with(".service") && c.kind == "syscall" {
             // which phase did the victim die in? (the reference run of this scenario tells)
@@ -388,7 +442,16 @@ fn atomic_count(scenario: &str) -> Result<u64, String> {
 }
 
 fn exec(ctx: &mut Ctx, part: &str, c: &CrashCase) {
-    let (obs, r) = Ctx::forked(std::time::Duration::from_secs(90), "survivor.hang", |obs| run_case(c, obs));
+    let (mut obs, mut r) = Ctx::forked(std::time::Duration::from_secs(90), "survivor.hang", |obs| run_case(c, obs));
+    if matches!(&r, Err(f) if f.signature.starts_with("survivor.hang")) {
+        // a genuine hang is deterministic: it must show again, otherwise it was the machine
+        let (obs2, r2) = Ctx::forked(std::time::Duration::from_secs(180), "survivor.hang", |obs| run_case(c, obs));
+        if !matches!(&r2, Err(f) if f.signature.starts_with("survivor.hang")) {
+            ctx.class("hang_not_reproduced", 1);
+            obs = obs2;
+            r = r2;
+        }
+    }
     ctx.record(part, vcore::rng::hash_str(&format!("{c:?}")), &obs, || serde_json::to_value(c).unwrap());
     if let Err(f) = r {
         if f.signature.starts_with("harness.") {
